@@ -378,7 +378,9 @@ func (q *Queue[T]) Producer() fun.Producer[T] {
 			return o, io.EOF
 		}
 
-		if next.link == nil {
+		// a loop: when the producer is shared, another caller may
+		// have advanced the cursor while this one was waiting.
+		for next.link == nil {
 			if q.closed {
 				return o, io.EOF
 			}
